@@ -903,6 +903,7 @@ void run_direct_blocks(RunCtx& cx) {
     gen::Swarm sw = gen::swarm(cx.seed, gen::P_TIME);
     sw.sets.resize(1);
     sw.sets[0].storage_parameters.max_block_items = (uint64_t)r.pick(std::vector<uint64_t>{1, 2, 3, 10000});
+    sw.sets[0].storage_parameters.storage_hints.rr_hints = 3;   // (add_generic_rrlist consults them; C04 judges that elsewhere)
     std::vector<CDNS::BlockParameters> sets = sw.sets;
     const uint64_t tps = sets[0].storage_parameters.ticks_per_second;
     const uint64_t maxi = sets[0].storage_parameters.max_block_items;
@@ -950,8 +951,29 @@ void run_direct_blocks(RunCtx& cx) {
                 if (timed) { x.time_offset = t; gq.ts = t; }
                 x.client_port = (uint16_t)(1000 + k); gq.client_port = x.client_port;
                 if (q.coin()) { x.transaction_id = (uint16_t)q.below(65536); gq.transaction_id = x.transaction_id; }
+                ref::MRec want = model::to_mrec(gq);
+                if (q.coin()) {
+                    // section lists composed with the public helpers; an empty list (QDCOUNT = 0, NODATA) is a list like any other
+                    std::vector<CDNS::GenericResourceRecord> ql, al;
+                    unsigned nq = (unsigned)q.below(3), na = (unsigned)q.below(3);
+                    for (unsigned z = 0; z < nq; z++) { CDNS::GenericResourceRecord g; g.name = "q" + std::to_string(q.below(3)); g.classtype.type = (uint16_t)q.below(3); g.classtype.class_ = 1; ql.push_back(g); }
+                    for (unsigned z = 0; z < na; z++) {
+                        CDNS::GenericResourceRecord g; g.name = "a" + std::to_string(q.below(3)); g.classtype.type = (uint16_t)q.below(3); g.classtype.class_ = 1;
+                        if (q.coin()) g.ttl = (uint32_t)q.below(4);
+                        if (q.coin()) g.rdata = "rd" + std::to_string(q.below(3));
+                        al.push_back(g);
+                    }
+                    CDNS::QueryResponseExtended qe, re;
+                    qe.question_index = blk.add_generic_qlist(ql);
+                    re.answer_index = blk.add_generic_rrlist(al);
+                    x.query_extended = qe;
+                    x.response_extended = re;
+                    want["query_questions"] = model::qlist_str(ql);
+                    want["response_answers"] = model::rrlist_str(al);
+                    cx.ctr->add(nq == 0 || na == 0 ? "probe.direct_block_with_empty_section_list" : "probe.direct_block_with_section_lists");
+                }
                 ret = blk.add_question_response_record(x);
-                want_qr.push_back(model::to_mrec(gq));
+                want_qr.push_back(want);
                 if (timed) note_time(t);
                 what = std::string("add QueryResponse ") + (timed ? model::ts_str(t) : "untimed");
                 break;
@@ -1018,6 +1040,7 @@ void run_direct_blocks(RunCtx& cx) {
             if (!vf.ended_clean || vf.blocks.size() != 1) cx.violation("C01", "C01/I01/reader-rejects-own-output/direct-block", vf.error_type + ": " + vf.error);
             else {
                 const model::VBlock& b = vf.blocks[0];
+                for (auto& w : want_qr) for (auto it = w.begin(); it != w.end();) { if (it->second == "[]") it = w.erase(it); else ++it; }   // (the generic interface has no empty section lists)
                 bool same = b.qr.size() == want_qr.size() && b.mm.size() == want_mm.size();
                 std::string d;
                 for (size_t i = 0; same && i < b.qr.size(); i++) if (b.qr[i] != want_qr[i]) { same = false; d = "qr " + std::to_string(i) + ": " + ref::first_diff(want_qr[i], b.qr[i]); }
@@ -1042,6 +1065,6 @@ void sim::engine_objects(RunCtx& cx) {
     else if (cx.prop == "C11") run_tables(cx);
     else if (cx.prop == "C04") run_copied_hints(cx);
     else if (cx.prop == "C09") run_preamble_objects(cx);
-    else if (cx.prop == "C12") run_direct_blocks(cx);
+    else if (cx.prop == "C12" || cx.prop == "C02") run_direct_blocks(cx);
     else run_copies(cx);
 }
